@@ -36,7 +36,7 @@ def name_of(r):
     return r.rsplit('#', 1)[1] if '#' in r else r[:80]
 
 
-def forbidden(e, o):
+def forbidden(e, o, r=''):
     """does the observation break the property itself (not merely differ from the model)?"""
     if o.startswith('panic') or 'panic' in o:
         return 'a goroutine of the client panicked'
@@ -46,10 +46,9 @@ def forbidden(e, o):
     me = re.match(r'connect=(\S+) callers=(\S+) alloc=(\S+)', e)
     if m.group(3) != 'ok':
         return 'allocation not bounded by the buffering limit: ' + m.group(3)
-    if m.group(1) != 'error' and not (me and me.group(1) == m.group(1) == 'blocked'):
+    local = ' sd=' in r      # a local Shutdown is in progress: waiting for the local Close / returning ErrClientClosed is the contract
+    if m.group(1) != 'error' and not (local and me and me.group(1) == m.group(1) and m.group(1) in ('blocked', 'closed')):
         return 'the serving call did not return an error after the stream ended: ' + m.group(1)
-    if me and me.group(1) == m.group(1) == 'blocked':
-        return 'the serving call does not return after the stream ended'
     if me:
         exp = dict(x.split('=') for x in me.group(2).split(',') if '=' in x)
         for x in m.group(2).split(','):
@@ -57,7 +56,7 @@ def forbidden(e, o):
                 k, v = x.split('=')
                 if exp.get(k) == 'err' and v.startswith('ok'):
                     return 'caller %s got a success (%s) for a reply that must be an error' % (k, v)
-                if v == 'timeout':
+                if v == 'timeout' and not k.startswith('sd'):
                     return 'caller %s stayed blocked' % k
     return None
 
@@ -74,7 +73,7 @@ def judge(res, reqs, obs):
             res.count('stage:' + parts[1].split('@')[0])
         if len(parts) > 2:
             res.count('mutation:' + re.sub(r'\d+', '', parts[2]))
-        why = forbidden(e, o)
+        why = forbidden(e, o, r)
         if e != o or why:
             res.count('mismatch')
             if why:
